@@ -1,8 +1,8 @@
 /-
 C02 on the payload layer — the payload classes that hold a descriptor: descriptor blocks as resource / tagged-block payloads,
-ColorLookup, VectorStrokeContentSetting, the slices. `DecOKIf … KeysFull`: what the reader returns is writable, and the round
-trip applies unless a descriptor key was cut short by the end of the stream (Model/DescriptorKeys.lean); for the version-6
-slices also C01's (F) clause `chainOK` (a slice without descriptor followed by a slice whose id is 16).
+ColorLookup, VectorStrokeContentSetting, the slices. What the reader returns is writable and in the domain of the round trip
+(`DecOK`); for the version-6 slices under C01's (F) clause `chainOK` (a slice without descriptor followed by a slice whose id
+is 16: the reader's speculative read cannot tell that shape from a descriptor block).
 -/
 import PsdVerif.Lemmas.PayloadResave3
 import PsdVerif.Lemmas.DescriptorResave
@@ -12,71 +12,64 @@ open PsdVerif PsdVerif.Codec PsdVerif.Payload PsdVerif.Payload.PCodec
 
 variable (tb : Descriptor.Tables)
 
-theorem DescriptorResource.decOKIf (ht : Descriptor.TermsFour tb) :
-    DecOKIf (DescriptorResource.codec tb) Descriptor.Block.KeysFull := by
-  intro d p b p' hd hl
-  obtain ⟨f, w, _⟩ := Descriptor.Block.dec_good ht d p b p' hd
-  exact ⟨w hl, f⟩
+theorem DescriptorResource.decOK (ht : Descriptor.TermsFour tb) : DecOK (DescriptorResource.codec tb) := by
+  intro d p b p' hd
+  obtain ⟨f, w⟩ := Descriptor.Block.dec_good ht d p b p' hd
+  exact ⟨w, f⟩
 
-theorem DescriptorPayload.decOKIf (ht : Descriptor.TermsFour tb) (pad : Nat) :
-    DecOKIf (DescriptorPayload.codec tb pad) Descriptor.Block.KeysFull := by
-  intro d p b p' hd hl
-  obtain ⟨f, w, _⟩ := Descriptor.Block.dec_good ht d p b p' hd
-  exact ⟨w hl, f⟩
+theorem DescriptorPayload.decOK (ht : Descriptor.TermsFour tb) (pad : Nat) : DecOK (DescriptorPayload.codec tb pad) := by
+  intro d p b p' hd
+  obtain ⟨f, w⟩ := Descriptor.Block.dec_good ht d p b p' hd
+  exact ⟨w, f⟩
 
-theorem Descriptor2Payload.decOKIf (ht : Descriptor.TermsFour tb) (pad : Nat) :
-    DecOKIf (Descriptor2Payload.codec tb pad) Descriptor.Block2.KeysFull := by
-  intro d p b p' hd hl
-  obtain ⟨f, w, _⟩ := Descriptor.Block2.dec_good ht d p b p' hd
-  exact ⟨w hl, f⟩
+theorem Descriptor2Payload.decOK (ht : Descriptor.TermsFour tb) (pad : Nat) : DecOK (Descriptor2Payload.codec tb pad) := by
+  intro d p b p' hd
+  obtain ⟨f, w⟩ := Descriptor.Block2.dec_good ht d p b p' hd
+  exact ⟨w, f⟩
 
 open Descriptor in
-theorem ColorLookup.decOKIf (ht : Descriptor.TermsFour tb) (pad : Nat) :
-    DecOKIf (ColorLookup.codec tb pad) Descriptor.Block2.KeysFull := by
-  intro d p b p' hd hl
-  have hr : Ret (fun b : Block2 => ColorLookup.Fits tb b ∧ (b.KeysFull → b.WF tb))
+theorem ColorLookup.decOK (ht : Descriptor.TermsFour tb) (pad : Nat) : DecOK (ColorLookup.codec tb pad) := by
+  intro d p b p' hd
+  have hr : Ret (fun b : Block2 => ColorLookup.Fits tb b ∧ b.WF tb)
       ((readU 2) >>- fun ver => (readU 4) >>- fun dv => (readBody tb (decBody tb (d.length + 1))) >>- fun x =>
         if dv = 16 then rpure (⟨(ver : Int), (dv : Int), x.1, x.2.1, x.2.2⟩ : Block2) else rfail .valueError) :=
     (ret_readU 2).bind fun ver hv => (ret_readU 4).bind fun dv hdv =>
       (ret_readBody ht (ret_decBody ht (d.length + 1))).bind fun x hx => by
       split
       · rename_i h16
-        obtain ⟨a, b', c⟩ := good_of_body hx
+        obtain ⟨a, b'⟩ := good_of_body hx
         have : (256 : Nat) ^ 4 = 4294967296 := by decide
         refine Ret.pure ?_
-        simp only [ColorLookup.Fits, Block2.WF, Block2.KeysFull, FitsU32, Int.toNat_natCast]
-        exact ⟨⟨⟨by omega, hv⟩, ⟨by omega, by omega⟩, a⟩, fun hf => ⟨by omega, b' hf⟩⟩
+        simp only [ColorLookup.Fits, Block2.WF, FitsU32, Int.toNat_natCast]
+        exact ⟨⟨⟨by omega, hv⟩, ⟨by omega, by omega⟩, a⟩, by omega, b'⟩
       · exact Ret.fail _
   obtain ⟨f, w⟩ := hr d p b p' hd
-  exact ⟨w hl, f⟩
-
-def VectorStrokeContentSetting.KeysFull (x : VectorStrokeContentSetting) : Prop :=
-  Descriptor.KeyFull x.classID ∧ Descriptor.KeysFullItems x.items
+  exact ⟨w, f⟩
 
 open Descriptor in
-theorem VectorStrokeContentSetting.decOKIf (ht : Descriptor.TermsFour tb) (pad : Nat) :
-    DecOKIf (VectorStrokeContentSetting.codec tb pad) VectorStrokeContentSetting.KeysFull := by
-  intro d p b p' hd hl
+theorem VectorStrokeContentSetting.decOK (ht : Descriptor.TermsFour tb) (pad : Nat) :
+    DecOK (VectorStrokeContentSetting.codec tb pad) := by
+  intro d p b p' hd
   have hr : Ret (fun b : VectorStrokeContentSetting => VectorStrokeContentSetting.Fits tb b ∧
-        (b.KeysFull → VectorStrokeContentSetting.WF tb b))
+        VectorStrokeContentSetting.WF tb b)
       ((readN 4) >>- fun key => (readU 4) >>- fun ver => (readBody tb (decBody tb (d.length + 1))) >>- fun x =>
         rpure (⟨key, (ver : Int), x.1, x.2.1, x.2.2⟩ : VectorStrokeContentSetting)) :=
     (ret_readN 4).bind fun key hk => (ret_readU 4).bind fun ver hv =>
       (ret_readBody ht (ret_decBody ht (d.length + 1))).bind fun x hx => by
-        obtain ⟨a, b', c⟩ := good_of_body hx
+        obtain ⟨a, b'⟩ := good_of_body hx
         have : (256 : Nat) ^ 4 = 4294967296 := by decide
         refine Ret.pure ?_
-        simp only [VectorStrokeContentSetting.Fits, VectorStrokeContentSetting.WF, VectorStrokeContentSetting.KeysFull, FitsU32]
-        exact ⟨⟨⟨by omega, by omega⟩, a⟩, fun hf => ⟨hk, b' hf⟩⟩
+        simp only [VectorStrokeContentSetting.Fits, VectorStrokeContentSetting.WF, FitsU32]
+        exact ⟨⟨⟨by omega, by omega⟩, a⟩, hk, b'⟩
   obtain ⟨f, w⟩ := hr d p b p' hd
-  exact ⟨w hl, f⟩
+  exact ⟨w, f⟩
 
 /-! ### slices -/
 
 theorem SliceV6.peekData_ok (ht : Descriptor.TermsFour tb) {d : B} {p : Nat} {o : Option Descriptor.Block} {p' : Nat}
     (h : SliceV6.peekData tb d p = .ok (o, p')) :
     optFits (Descriptor.Block.Fits tb) o ∧
-      (optFits Descriptor.Block.KeysFull o → optFits (fun (b : Descriptor.Block) => b.WF tb ∧ b.classID.bytes ≠ SliceV6.zeroKey) o) := by
+      optFits (fun (b : Descriptor.Block) => b.WF tb ∧ b.classID.bytes ≠ SliceV6.zeroKey) o := by
   unfold SliceV6.peekData at h
   split at h
   · split at h
@@ -86,17 +79,17 @@ theorem SliceV6.peekData_ok (ht : Descriptor.TermsFour tb) {d : B} {p : Nat} {o 
       · split at h
         · rename_i blk q' hb
           split at h
-          · cases h; exact ⟨trivial, fun _ => trivial⟩
+          · cases h; exact ⟨trivial, trivial⟩
           · rename_i hne
             cases h
-            obtain ⟨f, w, _⟩ := Descriptor.Block.dec_good ht d p blk _ hb
-            exact ⟨f, fun hk => ⟨w hk, hne⟩⟩
-        · cases h; exact ⟨trivial, fun _ => trivial⟩
-        · cases h; exact ⟨trivial, fun _ => trivial⟩
-        · cases h; exact ⟨trivial, fun _ => trivial⟩
+            obtain ⟨f, w⟩ := Descriptor.Block.dec_good ht d p blk _ hb
+            exact ⟨f, w, hne⟩
+        · cases h; exact ⟨trivial, trivial⟩
+        · cases h; exact ⟨trivial, trivial⟩
+        · cases h; exact ⟨trivial, trivial⟩
         · cases h
-      · cases h; exact ⟨trivial, fun _ => trivial⟩
-  · cases h; exact ⟨trivial, fun _ => trivial⟩
+      · cases h; exact ⟨trivial, trivial⟩
+  · cases h; exact ⟨trivial, trivial⟩
 
 theorem SliceV6.assocDec_ok {head : Row} {d : B} {p : Nat} {o : Option Row} {p' : Nat}
     (h : SliceV6.assocDec head d p = .ok (o, p')) :
@@ -113,10 +106,9 @@ theorem SliceV6.assocDec_ok {head : Row} {d : B} {p : Nat} {o : Option Row} {p' 
     cases h
     exact ⟨⟨fun h => Bool.noConfusion h, fun h => absurd h ha⟩, by simp only [SliceV6.assocOf, if_neg ha, optFits]⟩
 
-/-- one slice: the side condition is about its descriptor only -/
-theorem SliceV6.decOKIf (ht : Descriptor.TermsFour tb) :
-    DecOKIf (SliceV6.codec tb) (fun x => optFits Descriptor.Block.KeysFull x.data) := by
-  intro d p v p' hd hl
+/-- one slice -/
+theorem SliceV6.decOK (ht : Descriptor.TermsFour tb) : DecOK (SliceV6.codec tb) := by
+  intro d p v p' hd
   simp only [SliceV6.codec, SliceV6.dec, bind, Except.bind] at hd
   ebind hd; rename_i x1 h1; obtain ⟨head, q1⟩ := x1; simp only at hd
   ebind hd; rename_i x2 h2; obtain ⟨assoc, q2⟩ := x2; simp only at hd
@@ -147,12 +139,11 @@ theorem SliceV6.decOKIf (ht : Descriptor.TermsFour tb) :
   obtain ⟨fali, _, _⟩ := fmtDec_ok [U 4, U 4] rfl h12
   obtain ⟨fargb, _, _⟩ := fmtDec_ok SliceV6.argbFmt rfl h13
   obtain ⟨fd, wd⟩ := SliceV6.peekData_ok tb ht h14
-  exact ⟨⟨wa, wn, wu, wt, wm, wal, wc, wh, wd hl⟩, fhead, fa, fn, fst', fbb, fu, ft, fm, fal, fh, fc, fali, fargb, fd⟩
+  exact ⟨⟨wa, wn, wu, wt, wm, wal, wc, wh, wd⟩, fhead, fa, fn, fst', fbb, fu, ft, fm, fal, fh, fc, fali, fargb, fd⟩
 
-/-- the slices of a version-6 resource: besides the descriptors, the (F) clause of C01 - a slice without descriptor is not
-followed by a slice whose id is 16 (the reader's speculative read cannot tell that shape from a descriptor block) -/
-def SlicesV6.ResaveOK (x : SlicesV6) : Prop :=
-  (∀ s ∈ x.items, optFits Descriptor.Block.KeysFull s.data) ∧ SlicesV6.chainOK x.items
+/-- the slices of a version-6 resource: the (F) clause of C01 - a slice without descriptor is not followed by a slice whose
+id is 16 (the reader's speculative read cannot tell that shape from a descriptor block) -/
+def SlicesV6.ResaveOK (x : SlicesV6) : Prop := SlicesV6.chainOK x.items
 
 theorem SlicesV6.decOKIf (ht : Descriptor.TermsFour tb) : DecOKIf (SlicesV6.codec tb) SlicesV6.ResaveOK := by
   intro d p v p' hd hl
@@ -168,15 +159,15 @@ theorem SlicesV6.decOKIf (ht : Descriptor.TermsFour tb) : DecOKIf (SlicesV6.code
   have hall : ∀ s ∈ items, SliceV6.WF tb s ∧ SliceV6.Fits tb s := by
     intro s hs
     obtain ⟨a, b, hab⟩ := hitems s hs
-    exact SliceV6.decOKIf tb ht d a s b hab (hl.1 s hs)
-  refine ⟨⟨wn, fun s hs => (hall s hs).1, hl.2⟩, fbb, fn, ?_, fun s hs => (hall s hs).2⟩
+    exact SliceV6.decOK tb ht d a s b hab
+  refine ⟨⟨wn, fun s hs => (hall s hs).1, hl⟩, fbb, fn, ?_, fun s hs => (hall s hs).2⟩
   simp only [FitsU, hlen]
   exact (readU_ok h3).1
 
 def Slices.ResaveOK (x : Slices) : Prop :=
   match x.data with
   | .v6 s => SlicesV6.ResaveOK s
-  | .desc b => b.KeysFull
+  | .desc _ => True
 
 theorem Slices.decOKIf (ht : Descriptor.TermsFour tb) : DecOKIf (Slices.codec tb) Slices.ResaveOK := by
   intro d p v p' hd hl
@@ -194,7 +185,7 @@ theorem Slices.decOKIf (ht : Descriptor.TermsFour tb) : DecOKIf (Slices.codec tb
   · rename_i h6
     ebind hd; rename_i x2 h2; obtain ⟨b, q2⟩ := x2
     cases hd
-    obtain ⟨f, w, _⟩ := Descriptor.Block.dec_good ht d _ _ _ h2
-    exact ⟨⟨hmem, h6, w hl⟩, hv, f⟩
+    obtain ⟨f, w⟩ := Descriptor.Block.dec_good ht d _ _ _ h2
+    exact ⟨⟨hmem, h6, w⟩, hv, f⟩
 
 end PsdVerif.Payload3
